@@ -38,23 +38,45 @@ const (
 	cpuRatioMin   = 6.0
 )
 
-// measure runs one (family, n, variant) in a fresh worker.
-func measure(g growth, n int, variant string, budget time.Duration) (pt point, out workerOut) {
-	in := g.gen(n)
-	growthRuns.Add(1)
-	out = runWorker([]job{{id: 0, mask: variantMask(variant), flags: fMeasure, input: in}}, workerOpts{budget: budget, watchdog: int(budget/time.Second) + 30})
-	pt = point{N: n, Bytes: len(in)}
-	if out.done == nil {
-		kind, _, msg := classifyDeath(out.stderr, out.timedOut)
-		pt.Outcome = kind + ": " + msg
-		return
+// measure runs a series of sizes of one family under one variant in one fresh worker (one job
+// per size; counters are deltas around each job). A death ends the series at the open size.
+func measure(g growth, sizes []int, variant string, budget time.Duration) (pts []point, reps [][]finding, death *workerOut) {
+	var jobs []job
+	for i, n := range sizes {
+		jobs = append(jobs, job{id: uint32(i), mask: variantMask(variant), flags: fMeasure, input: g.gen(n)})
 	}
-	pt.Outcome = "ok"
-	for _, r := range out.reports {
-		if r.Metrics != nil {
-			pt.Alloc, pt.Mallocs, pt.Reads, pt.Deadline, pt.CPU = r.Metrics.TotalAlloc, r.Metrics.Mallocs, r.Metrics.ConnReads, r.Metrics.Deadlines, r.Metrics.CPU
+	growthRuns.Add(int64(len(sizes)))
+	out := runWorker(jobs, workerOpts{budget: budget, watchdog: int(budget/time.Second) + 30})
+	for i, n := range sizes {
+		pt := point{N: n, Bytes: len(jobs[i].input)}
+		var fs []finding
+		found := false
+		for _, r := range out.reports {
+			if int(r.ID) != i {
+				continue
+			}
+			found = true
+			pt.Outcome = "ok"
+			if r.Metrics != nil {
+				pt.Alloc, pt.Mallocs, pt.Reads, pt.Deadline, pt.CPU = r.Metrics.TotalAlloc, r.Metrics.Mallocs, r.Metrics.ConnReads, r.Metrics.Deadlines, r.Metrics.CPU
+			}
+			pt.MaxDepth = r.MaxDepth
+			fs = r.Findings
 		}
-		pt.MaxDepth = r.MaxDepth
+		if !found {
+			if out.done == nil && int64(i) == out.lastBeg {
+				kind, _, msg := classifyDeath(out.stderr, out.timedOut)
+				pt.Outcome = kind + ": " + msg
+				pts = append(pts, pt)
+				reps = append(reps, nil)
+			}
+			break
+		}
+		pts = append(pts, pt)
+		reps = append(reps, fs)
+	}
+	if out.done == nil {
+		death = &out
 	}
 	return
 }
@@ -76,11 +98,11 @@ func growthKey(g growth, what string) string {
 func runGrowth(thorough bool, res chan<- growthResult) {
 	fams := growthFamilies()
 	sizes := []int{1 << 10, 2 << 10, 4 << 10, 8 << 10, 16 << 10, 32 << 10, 64 << 10}
-	budget := 40 * time.Second
-	par := 4
+	budget := 90 * time.Second
+	par := 5
 	if thorough {
 		sizes = append(sizes, 128<<10, 256<<10, 512<<10)
-		budget = 400 * time.Second
+		budget = 600 * time.Second
 		par = 6
 	}
 	const probeN = 512 << 10
@@ -96,7 +118,6 @@ func runGrowth(thorough bool, res chan<- growthResult) {
 	vk.ParallelW(par, len(tasks), func(i int) {
 		g, variant := tasks[i].g, tasks[i].variant
 		name := g.name + "@" + variant
-		var pts []point
 		complete := true
 		violated := ""
 		report := func(key, what string, n int) {
@@ -106,117 +127,107 @@ func runGrowth(thorough bool, res chan<- growthResult) {
 			violated = key
 			addCandidate(candidate{Key: key, Input: g.gen(min(n, 64)), Variant: variant, What: what, Family: "growth", GrowthF: name, GrowthN: n})
 		}
-		for _, n := range sizes {
-			pt, out := measure(g, n, variant, budget)
-			pts = append(pts, pt)
-			for _, r := range out.reports {
-				for _, f := range r.Findings {
-					key := f.Key
-					if g.recursive && (strings.HasPrefix(key, "unbounded-recursion:") || strings.HasPrefix(key, "fatal-panic:")) {
-						key = growthKey(g, "")
-					}
-					report(key, fmt.Sprintf("family %s n=%d: %s", name, n, f.What), n)
+		deathReport := func(d *workerOut, pt point) {
+			kind, fn, msg := classifyDeath(d.stderr, d.timedOut)
+			switch kind {
+			case "budget", "watchdog":
+				if violated == "" {
+					complete = false
 				}
+			case "stack-overflow":
+				report(growthKey(g, "stack-overflow"), fmt.Sprintf("family %s n=%d (%d bytes): the worker died with a stack overflow (max stack 64 MiB; legitimate nesting is capped at %d): %s in %s", name, pt.N, pt.Bytes, maxLegitDepth, msg, fn), pt.N)
+			case "out-of-memory":
+				report(growthKey(g, "out-of-memory"), fmt.Sprintf("family %s n=%d (%d bytes): the worker ran out of memory under RLIMIT_AS 4 GiB: %s", name, pt.N, pt.Bytes, msg), pt.N)
+			default:
+				report(deathKey(kind, fn, msg, d.stderr), fmt.Sprintf("family %s n=%d: worker died: %s %s in %s", name, pt.N, kind, msg, fn), pt.N)
 			}
-			if out.done == nil {
-				kind, fn, msg := classifyDeath(out.stderr, out.timedOut)
-				switch kind {
-				case "budget", "watchdog":
-					if violated == "" {
-						complete = false
-					}
-				case "stack-overflow":
-					report(growthKey(g, "stack-overflow"), fmt.Sprintf("family %s n=%d (%d bytes): the worker died with a stack overflow (max stack 64 MiB; legitimate nesting is capped at %d): %s in %s", name, n, pt.Bytes, maxLegitDepth, msg, fn), n)
-				case "out-of-memory":
-					report(growthKey(g, "out-of-memory"), fmt.Sprintf("family %s n=%d (%d bytes): the worker ran out of memory under RLIMIT_AS 4 GiB: %s", name, n, pt.Bytes, msg), n)
-				default:
-					report(deathKey(kind, fn, msg, out.stderr), fmt.Sprintf("family %s n=%d: worker died: %s %s in %s", name, n, kind, msg, fn), n)
+		}
+		findingsReport := func(fs []finding, n int) {
+			for _, f := range fs {
+				key := f.Key
+				if g.recursive && (strings.HasPrefix(key, "unbounded-recursion:") || strings.HasPrefix(key, "fatal-panic:")) {
+					key = growthKey(g, "")
 				}
-				break
+				report(key, fmt.Sprintf("family %s n=%d: %s", name, n, f.What), n)
 			}
-			if len(pts) >= 2 && violated == "" {
-				a, b := pts[len(pts)-2], pts[len(pts)-1]
-				type ctr struct {
-					name string
-					r    float64
+		}
+		pts, reps, death := measure(g, sizes, variant, budget)
+		for k := range pts {
+			findingsReport(reps[k], pts[k].N)
+		}
+		if death != nil && len(pts) > 0 {
+			deathReport(death, pts[len(pts)-1])
+		}
+		get := func(p point, c int) float64 {
+			switch c {
+			case 0:
+				return float64(p.Alloc)
+			case 1:
+				return float64(p.Mallocs)
+			case 2:
+				return float64(p.Reads)
+			}
+			return float64(p.Deadline)
+		}
+		ctrNames := []string{"allocated bytes (TotalAlloc)", "allocations (Mallocs)", "connection reads", "deadline calls (responses processed)"}
+		for k := 1; k < len(pts) && violated == ""; k++ {
+			a, b := pts[k-1], pts[k]
+			if a.Outcome != "ok" || b.Outcome != "ok" {
+				continue
+			}
+			for c := range ctrNames {
+				r := ratio(get(a, c), get(b, c))
+				if r <= allocRatioMax {
+					continue
 				}
-				for _, c := range []ctr{
-					{"allocated bytes (TotalAlloc)", ratio(float64(a.Alloc), float64(b.Alloc))},
-					{"allocations (Mallocs)", ratio(float64(a.Mallocs), float64(b.Mallocs))},
-					{"connection reads", ratio(float64(a.Reads), float64(b.Reads))},
-					{"deadline calls (responses processed)", ratio(float64(a.Deadline), float64(b.Deadline))},
-				} {
-					if c.r > allocRatioMax {
-						// re-measure both sizes twice; the smallest ratio counts
-						best := c.r
-						for k := 0; k < 2; k++ {
-							a2, _ := measure(g, a.N, variant, budget)
-							b2, _ := measure(g, b.N, variant, budget)
-							var r2 float64
-							switch c.name[:5] {
-							case "alloc":
-								if strings.HasPrefix(c.name, "allocated") {
-									r2 = ratio(float64(a2.Alloc), float64(b2.Alloc))
-								} else {
-									r2 = ratio(float64(a2.Mallocs), float64(b2.Mallocs))
-								}
-							case "conne":
-								r2 = ratio(float64(a2.Reads), float64(b2.Reads))
-							default:
-								r2 = ratio(float64(a2.Deadline), float64(b2.Deadline))
-							}
-							if a2.Outcome == "ok" && b2.Outcome == "ok" && r2 < best {
-								best = r2
-							}
-						}
-						if best > allocRatioMax {
-							report(growthKey(g, "superlinear-alloc"), fmt.Sprintf("family %s: %s grows %.2fx from n=%d to n=%d (%d -> %d bytes allocated, %d -> %d allocations) for an input that doubles (%d -> %d bytes); limit %.1fx", name, c.name, best, a.N, b.N, a.Alloc, b.Alloc, a.Mallocs, b.Mallocs, a.Bytes, b.Bytes, allocRatioMax), b.N)
-						}
-					}
-				}
-				if r := ratio(a.CPU, b.CPU); r >= cpuRatioMin && b.CPU >= 0.5 && violated == "" {
-					best := r
-					for k := 0; k < 5; k++ {
-						a2, _ := measure(g, a.N, variant, budget)
-						b2, _ := measure(g, b.N, variant, budget)
-						if r2 := ratio(a2.CPU, b2.CPU); a2.Outcome == "ok" && b2.Outcome == "ok" && r2 < best {
+				// re-measure both sizes twice; the smallest ratio counts
+				best := r
+				for t := 0; t < 2; t++ {
+					p2, _, _ := measure(g, []int{a.N, b.N}, variant, budget)
+					if len(p2) == 2 && p2[0].Outcome == "ok" && p2[1].Outcome == "ok" {
+						if r2 := ratio(get(p2[0], c), get(p2[1], c)); r2 < best {
 							best = r2
 						}
 					}
-					if best >= cpuRatioMin {
-						report(growthKey(g, "superlinear-cpu"), fmt.Sprintf("family %s: CPU time grows %.1fx from n=%d to n=%d (%.2fs -> %.2fs), smallest of 6 measurements", name, best, a.N, b.N, a.CPU, b.CPU), b.N)
-					}
+				}
+				if best > allocRatioMax {
+					report(growthKey(g, "superlinear-alloc"), fmt.Sprintf("family %s: %s grows %.2fx from n=%d to n=%d (%d -> %d bytes allocated, %d -> %d allocations) for an input that doubles (%d -> %d bytes); limit %.1fx", name, ctrNames[c], best, a.N, b.N, a.Alloc, b.Alloc, a.Mallocs, b.Mallocs, a.Bytes, b.Bytes, allocRatioMax), b.N)
 				}
 			}
-			if violated != "" {
-				break
+			if r := ratio(a.CPU, b.CPU); r >= cpuRatioMin && b.CPU >= 1.0 && violated == "" {
+				best := r
+				for t := 0; t < 5; t++ {
+					p2, _, _ := measure(g, []int{a.N, b.N}, variant, budget)
+					if len(p2) == 2 && p2[0].Outcome == "ok" && p2[1].Outcome == "ok" {
+						if r2 := ratio(p2[0].CPU, p2[1].CPU); r2 < best {
+							best = r2
+						}
+					} else {
+						best = 0
+					}
+				}
+				if best >= cpuRatioMin {
+					report(growthKey(g, "superlinear-cpu"), fmt.Sprintf("family %s: CPU time grows %.1fx from n=%d to n=%d (%.2fs -> %.2fs), smallest of 6 measurements", name, best, a.N, b.N, a.CPU, b.CPU), b.N)
+				}
 			}
 		}
 		var probe *point
-		last := pts[len(pts)-1]
-		if g.recursive && last.N < probeN && (last.Outcome == "ok" || violated != "") && !strings.HasPrefix(last.Outcome, "stack-overflow") {
+		last := point{Outcome: "none"}
+		if len(pts) > 0 {
+			last = pts[len(pts)-1]
+		}
+		if g.recursive && last.N < probeN && !strings.HasPrefix(last.Outcome, "stack-overflow") {
 			// "(" x 512k: does the recursion overflow a 64 MiB stack?
-			pb := 60 * time.Second
-			pt, out := measure(g, probeN, variant, pb)
-			probe = &pt
-			if out.done == nil {
-				kind, fn, msg := classifyDeath(out.stderr, out.timedOut)
-				if kind == "stack-overflow" {
-					report(growthKey(g, "stack-overflow"), fmt.Sprintf("family %s n=%d (%d bytes): the worker died with a stack overflow (max stack 64 MiB; legitimate nesting is capped at %d): %s in %s", name, probeN, pt.Bytes, maxLegitDepth, msg, fn), probeN)
-				} else if kind == "out-of-memory" {
-					report(growthKey(g, "out-of-memory"), fmt.Sprintf("family %s n=%d: out of memory: %s", name, probeN, msg), probeN)
-				} else if violated == "" && kind != "budget" {
-					report(deathKey(kind, fn, msg, out.stderr), fmt.Sprintf("family %s n=%d: worker died: %s %s in %s", name, probeN, kind, msg, fn), probeN)
-				}
-			} else {
-				for _, r := range out.reports {
-					for _, f := range r.Findings {
-						key := f.Key
-						if strings.HasPrefix(key, "unbounded-recursion:") {
-							key = growthKey(g, "")
-						}
-						report(key, fmt.Sprintf("family %s n=%d: %s", name, probeN, f.What), probeN)
+			pp, rr, d := measure(g, []int{probeN}, variant, 60*time.Second)
+			if len(pp) == 1 {
+				probe = &pp[0]
+				if d != nil {
+					kind, _, _ := classifyDeath(d.stderr, d.timedOut)
+					if kind != "budget" && kind != "watchdog" {
+						deathReport(d, pp[0])
 					}
+				} else {
+					findingsReport(rr[0], probeN)
 				}
 			}
 		}
@@ -228,13 +239,13 @@ func runGrowth(thorough bool, res chan<- growthResult) {
 			if r := ratio(float64(pts[k-1].Alloc), float64(pts[k].Alloc)); r > maxAlloc {
 				maxAlloc = r
 			}
-			if r := ratio(pts[k-1].CPU, pts[k].CPU); r > maxCPU && pts[k].CPU >= 0.05 {
+			if r := ratio(pts[k-1].CPU, pts[k].CPU); r > maxCPU && pts[k].CPU >= 0.2 {
 				maxCPU = r
 			}
 		}
 		sum := map[string]interface{}{
-			"sizes": len(pts), "max_alloc_ratio_per_doubling": round2(maxAlloc), "max_cpu_ratio_per_doubling": round2(maxCPU),
-			"last": pts[len(pts)-1], "violation": violated,
+			"sizes": len(pts), "max_alloc_ratio_per_doubling": round2(maxAlloc), "max_cpu_ratio_per_doubling_above_0.2s": round2(maxCPU),
+			"last": last, "violation": violated,
 		}
 		if probe != nil {
 			sum["probe_512k"] = *probe
@@ -261,22 +272,23 @@ func replayGrowth(name string, n int) {
 			continue
 		}
 		fmt.Printf("growth family %s, variant %s\n", g.name, variant)
+		var sz []int
 		for _, m := range []int{n / 4, n / 2, n} {
-			if m < 1 {
-				continue
+			if m >= 1 {
+				sz = append(sz, m)
 			}
-			pt, out := measure(g, m, variant, 300*time.Second)
-			fmt.Printf("  n=%d input=%d bytes: outcome=%s alloc=%d mallocs=%d reads=%d deadline_calls=%d cpu=%.3fs max_depth_delivered=%d\n", m, pt.Bytes, pt.Outcome, pt.Alloc, pt.Mallocs, pt.Reads, pt.Deadline, pt.CPU, pt.MaxDepth)
-			for _, r := range out.reports {
-				for _, f := range r.Findings {
-					fmt.Printf("    => finding key=%s: %s\n", f.Key, f.What)
-				}
+		}
+		pts, reps, death := measure(g, sz, variant, 600*time.Second)
+		for k, pt := range pts {
+			fmt.Printf("  n=%d input=%d bytes: outcome=%s alloc=%d mallocs=%d reads=%d deadline_calls=%d cpu=%.3fs max_depth_delivered=%d\n", pt.N, pt.Bytes, pt.Outcome, pt.Alloc, pt.Mallocs, pt.Reads, pt.Deadline, pt.CPU, pt.MaxDepth)
+			for _, f := range reps[k] {
+				fmt.Printf("    => finding key=%s: %s\n", f.Key, f.What)
 			}
-			if out.done == nil {
-				lines := strings.Split(out.stderr, "\n")
-				for i := 0; i < len(lines) && i < 16; i++ {
-					fmt.Println("     | " + lines[i])
-				}
+		}
+		if death != nil {
+			lines := strings.Split(death.stderr, "\n")
+			for i := 0; i < len(lines) && i < 16; i++ {
+				fmt.Println("     | " + lines[i])
 			}
 		}
 		return
